@@ -76,6 +76,8 @@ type Adversary struct {
 	MaxCrashes                                                  int
 	Crashes                                                     int
 	seenPool                                                    int
+	offered                                                     map[int]map[int]string
+	claimed                                                     map[string]bool
 
 	// partitions: while PartLeft > 0 a real node only receives messages from
 	// real nodes of its own group (Byzantine senders reach everybody).
@@ -378,9 +380,15 @@ func (a *Adversary) reached(target int64) bool {
 	return any
 }
 
-// FairSuffix delivers everything to everyone and fires timeouts in schedule
-// order (only when nothing else is possible) until target or maxSteps.
-// Used to let runs finish (C01) and as the fair suffix of C12.
+// FairSuffix plays ideal gossip: every message any node produced (or a
+// Byzantine key signed) for the height a node is working on (plus straggler
+// precommits of the previous height) is offered to that node, and offered again
+// whenever the node has moved to another round or step since (a real reactor
+// keeps sending what the peer still lacks for its current height/round; a
+// message that arrived too early and was ignored must come again). Proposals
+// go before parts before votes. Scheduled timeouts fire in schedule order, and
+// only when nothing else is possible. Used to let runs finish (C01) and as the
+// fair suffix of C12.
 func (a *Adversary) FairSuffix(target int64, maxSteps int) (steps int, ok bool) {
 	n := a.N
 	for _, nd := range n.Nodes {
@@ -390,6 +398,10 @@ func (a *Adversary) FairSuffix(target int64, maxSteps int) (steps int, ok bool) 
 			}
 		}
 	}
+	if a.offered == nil {
+		a.offered = map[int]map[int]string{}
+	}
+	rank := map[string]int{"proposal": 0, "part": 1, "prevote": 2, "precommit": 3}
 	for steps = 0; steps < maxSteps; steps++ {
 		if a.reached(target) {
 			return steps, true
@@ -405,9 +417,37 @@ func (a *Adversary) FairSuffix(target int64, maxSteps int) (steps int, ok bool) 
 			continue
 		}
 		for _, i := range a.upNodes() {
-			u := n.Undelivered(i)
-			if len(u) > 0 {
-				n.Deliver(i, u[0])
+			rs := n.Nodes[i].CS.VerifRoundState()
+			at := fmt.Sprintf("%d/%d/%d", rs.Height, rs.Round, rs.Step)
+			if a.offered[i] == nil {
+				a.offered[i] = map[int]string{}
+			}
+			if a.gossipClaims(i) {
+				// a new majority claim makes conflicting votes for that block acceptable: offer votes again
+				for id := range a.offered[i] {
+					if k := n.Pool[id].Kind; k == "prevote" || k == "precommit" {
+						delete(a.offered[i], id)
+					}
+				}
+			}
+			best := -1
+			for _, e := range n.Pool {
+				if e.From == i && !e.Byz {
+					continue
+				}
+				if !(e.H == rs.Height || (e.H+1 == rs.Height && e.Kind == "precommit")) {
+					continue
+				}
+				if a.offered[i][e.ID] == at {
+					continue
+				}
+				if best < 0 || rank[e.Kind] < rank[n.Pool[best].Kind] {
+					best = e.ID
+				}
+			}
+			if best >= 0 {
+				a.offered[i][best] = at
+				n.Deliver(i, best)
 				progressed = true
 				break
 			}
@@ -415,7 +455,7 @@ func (a *Adversary) FairSuffix(target int64, maxSteps int) (steps int, ok bool) 
 		if progressed {
 			continue
 		}
-		// nothing in flight: the oldest scheduled timeout of the most lagging node fires
+		// nothing in flight: the oldest scheduled timeout fires
 		best, bi := -1, -1
 		var bh, br int64
 		for _, i := range a.upNodes() {
@@ -432,4 +472,67 @@ func (a *Adversary) FairSuffix(target int64, maxSteps int) (steps int, ok bool) 
 		n.Fire(bi, best)
 	}
 	return steps, a.reached(target)
+}
+
+// gossipClaims does for node i what the reactors of its honest peers do with
+// VoteSetMaj23 messages: every peer that has a +2/3 majority in some round of
+// the height i works on (or has already committed that height) tells i which
+// block it is for, so that i accepts a second (conflicting) vote of an
+// equivocating validator for exactly that block. Returns true if a new claim was made.
+func (a *Adversary) gossipClaims(i int) bool {
+	n := a.N
+	if a.claimed == nil {
+		a.claimed = map[string]bool{}
+	}
+	rs := n.Nodes[i].CS.VerifRoundState()
+	h := rs.Height
+	made := false
+	claim := func(j int, r int64, typ byte, id types.BlockID) {
+		if rs.Votes == nil || id.IsZero() {
+			return
+		}
+		var vs *types.VoteSet
+		if typ == types.VoteTypePrevote {
+			vs = rs.Votes.Prevotes(r)
+		} else {
+			vs = rs.Votes.Precommits(r)
+		}
+		if vs == nil {
+			return // round not tracked yet: claim again later
+		}
+		k := fmt.Sprintf("%d|%d|%d|%d|%d|%X", i, j, h, r, typ, id.Hash)
+		if a.claimed[k] {
+			return
+		}
+		a.claimed[k] = true
+		rs.Votes.SetPeerMaj23(r, typ, fmt.Sprintf("peer%d", j), id)
+		a.Claims++
+		made = true
+	}
+	for _, j := range a.upNodes() {
+		if j == i {
+			continue
+		}
+		nj := n.Nodes[j]
+		rj := nj.CS.VerifRoundState()
+		if rj.Height == h && rj.Votes != nil {
+			for r := int64(0); r <= rj.Round; r++ {
+				if pv := rj.Votes.Prevotes(r); pv != nil {
+					if id, ok := pv.TwoThirdsMajority(); ok {
+						claim(j, r, types.VoteTypePrevote, id)
+					}
+				}
+				if pc := rj.Votes.Precommits(r); pc != nil {
+					if id, ok := pc.TwoThirdsMajority(); ok {
+						claim(j, r, types.VoteTypePrecommit, id)
+					}
+				}
+			}
+		} else if nj.Store.Height() >= h {
+			if c := nj.Store.LoadSeenCommit(h); c != nil && len(c.Precommits) > 0 && c.FirstPrecommit() != nil {
+				claim(j, c.Round(), types.VoteTypePrecommit, c.BlockID)
+			}
+		}
+	}
+	return made
 }
